@@ -158,6 +158,22 @@ def check_quantile(seed, n):
         out = np.array([float(np.asarray(weighted_quantile(vals, q, log_weights=lw)).reshape(-1)[0]) for q in qs])
     except Exception as e:
         return [(f"quantile-exception:{type(e).__name__}", str(e)[:100])]
+    # the pre-sorted path (what the sampler's quantile threshold uses) and a constant added to the log-weights must give the same estimator
+    try:
+        order = np.argsort(vals, kind="stable")
+        lw_sorted = None if lw is None else np.asarray(lw)[order]
+        out_sorted = np.array([float(np.asarray(weighted_quantile(vals[order], q, log_weights=lw_sorted, values_sorted=True)).reshape(-1)[0]) for q in qs])
+        shift = float(rng.choice([-7.5, 3.0, 40.0]))
+        lw_shift = np.full(size, shift) if lw is None else np.asarray(lw) + shift
+        out_shift = np.array([float(np.asarray(weighted_quantile(vals, q, log_weights=lw_shift)).reshape(-1)[0]) for q in qs])
+        out_sorted_shift = np.array([float(np.asarray(weighted_quantile(vals[order], q, log_weights=lw_shift[order], values_sorted=True)).reshape(-1)[0]) for q in qs])
+    except Exception as e:
+        return [(f"quantile-exception:{type(e).__name__}", str(e)[:100])]
+    scale = 1e-9 * max(float(sv[-1] - sv[0]), 1e-300) + 1e-12 * float(np.max(np.abs(sv)))
+    ties_in_values = len(np.unique(vals)) < size   # with tied values the stable sort may order equal values (and their weights) differently: same estimator value
+    for nm, other in (("pre-sorted-path", out_sorted), ("log-weights-shifted-by-a-constant", out_shift), ("pre-sorted-path-with-shifted-weights", out_sorted_shift)):
+        if not np.all(np.abs(other - out) <= 1e3 * scale + 1e-9 * np.abs(out)):
+            probs.append((f"quantile-differs-on-{nm}", dict(max_diff=float(np.max(np.abs(other - out))), n=size, weights=wc)))
     rngv = float(sv[-1] - sv[0])
     # the estimator is a weighted sum of the order statistics: rounding of the sum is ~ n_terms ulp of the largest magnitude (matters when all values are equal)
     tol = 1e-9 * max(rngv, 1e-300) + 1e-12 * float(np.max(np.abs(sv)))
